@@ -2,9 +2,9 @@
 from ..rules import topology, delivery
 from .common import declare
 
-RULES = ['BOTH-ENDS', 'PER-UPSTREAM-OVERRIDE', 'BELIEF-CONSISTENT', 'WEAK-DOWN', 'STRONG-SINK', 'DESTROY-SUPER', 'FANOUT', 'NONE-SENTINEL', 'EDIT-ATOMIC']
+RULES = ['BOTH-ENDS', 'PER-UPSTREAM-OVERRIDE', 'BELIEF-CONSISTENT', 'WEAK-DOWN', 'STRONG-SINK', 'DESTROY-SUPER', 'FANOUT', 'NONE-SENTINEL', 'EDIT-ATOMIC', 'HOOKS-ONLY']
 FLOORS = {'BOTH-ENDS': 5, 'PER-UPSTREAM-OVERRIDE': 6, 'BELIEF-CONSISTENT': 0, 'WEAK-DOWN': 3, 'STRONG-SINK': 4,
-          'DESTROY-SUPER': 3, 'FANOUT': 3, 'EDIT-ATOMIC': 4}
+          'DESTROY-SUPER': 3, 'FANOUT': 3, 'EDIT-ATOMIC': 4, 'HOOKS-ONLY': 5}
 
 META = {
     'level': "Static analysis of the graph-editing protocol: every function that touches one end of an edge touches the other end in "
@@ -36,8 +36,10 @@ def run(ctx, R):
     R.run(delivery.check_fanout, ctx, R)
     R.run(topology.check_none_sentinel, ctx, R, [c for c in nodes if c.module.name == 'streamz.core'])
     R.run(topology.check_edit_atomic, ctx, R, nodes)
+    R.run(topology.check_hooks_only, ctx, R)
 
 
 META['level'] += ' connect()/disconnect() reach neither destroy() nor the removal from _global_sinks (call-graph closure), and per-upstream fields are resized unconditionally.'
 META['level'] += ' NONE-SENTINEL: an optional constructor argument (e.g. combine_latest emit_on) is never tested for truthiness where another site tests it against None.'
 META['level'] += ' EDIT-ATOMIC: the hook that runs second in connect/disconnect/destroy cannot refuse with an explicit raise (a guard that is dead by shape - a tuple/list field compared with a node - is recognised).'
+META['level'] += ' HOOKS-ONLY: only the four base hooks and constructors mutate the upstreams/downstreams containers; every other edit goes through the overridable hooks.'
